@@ -7,7 +7,7 @@ set -u
 HERE=$(cd "$(dirname "$0")" && pwd)
 REPO=${VERIF_REPO:-/repo}
 SRC="$REPO/java/com/grammatech/gtirb"
-OUT="$HERE/build"
+OUT=${VERIF_JAVA_OUT:-"$HERE/build"}   # one directory per run: concurrent runs must not share it
 
 rm -rf "$OUT"     # never leave a stale build behind a failed one
 command -v javac >/dev/null 2>&1 || { echo "build.sh: javac not found" >&2; exit 127; }
